@@ -237,6 +237,11 @@ class C06(Prop):
                 if len(bc) != nc or any(len(np.asarray(c.data)) != nr for c in bc):
                     res.violate("C06.write-cycle", "shape changed over write -> read: %d curves of lengths %r" % (len(bc), [len(c.data) for c in bc]))
                     return res
+                textual = [j for j in range(nc) if np.asarray(bc[j].data).dtype.kind not in "fiu"]
+                if textual:
+                    res.violate("C06.write-cycle", "numeric curve #%d came back as %s after write(%r) -> read: %r" % (
+                        textual[0], np.asarray(bc[textual[0]].data).dtype, sc["wkw"], np.asarray(bc[textual[0]].data).tolist()[:4]))
+                    return res
                 nan_before = sorted((i, j) for j in range(nc) for i in range(nr) if math.isnan(float(np.asarray(curves[j].data)[i])))
                 nan_after = sorted((i, j) for j in range(nc) for i in range(nr) if math.isnan(float(np.asarray(bc[j].data)[i])))
                 if nan_before != nan_after:
